@@ -287,3 +287,20 @@ Fixpoint modes_valid (modes : list Z) : result unit :=
   | [] => Ok tt
   | j :: rest => rbind (noll_exact j) (fun _ => modes_valid rest)
   end.
+
+(* shape of the result: zernike returns mask.shape; zernike_basis returns modes.shape + mask.shape
+   (a scalar mode counts as one row: modes[..., np.newaxis]), reshaped to (rows, -1) when vectorize *)
+Definition zernike_result_shape (basis : bool) (nmodes nr nc : Z) (vectorize : bool) : list Z :=
+  if basis then (if vectorize then [nmodes; nr * nc] else [nmodes; nr; nc]) else [nr; nc].
+
+(* zernike_coordinates(mask, shift=(sr, sc)): the caller names the origin, center + shift, in
+   (row, column) order as the code hands it to helper.mesh (the docstring says "x, y") *)
+Definition zernike_coordinates_shift (mask : arr QS) (sr sc : Qc) : result coords :=
+  if (nr mask <=? 0) || (nc mask <=? 0) then Err ValueError else
+  let rr := mesh1 (nr mask) sr in
+  let ccm := mesh1 (nc mask) sc in
+  let rm2 := rmax2_of mask (r2_of rr ccm) in
+  Ok (mkCoords (zQ (nr mask / 2) + sr)%Qc (zQ (nc mask / 2) + sc)%Qc rm2
+        (fun i j => (r2_of rr ccm i j / rm2)%Qc)
+        (fun i j => (- ccm j)%Qc)
+        (fun i j => (- rr i)%Qc)).
